@@ -75,6 +75,12 @@ add('C04', 'model_checking',
     "bit-precise symbolic execution of the real ParamsGenerator (z3 QF_FP/QF_BV term equality against a spec-derived reference), concrete replay",
     'DESIGN.md 3/C04')
 
+add('C05', 'model_checking',
+    "Bit-precise symbolic run of the real pipeline (parameter generation -> instruction generation -> performer -> quantize_tensor/_pack_data) on SYMBOLIC constant contents for 11-15 weight shapes (odd element counts, ranks 1-4, every quantized dimension of the op table) x weight-only/dynamic-range 8/4 bit sym/asym per-channel/per-tensor, float16 and static-range (weights, biases, activation-config constants). For every rewritten constant z3 decides: buffer length == what shape/dtype imply; the harness's own decoder of the stored byte TERMS (low nibble first, sign extension, little endian) yields for each element the reference integer clip(rint(x*(1/s_c)+z_c)) with the parameters of the element's OWN channel; float16 bytes are the RNE binary16 of the original; plus the pure bit-vector lemma decode(pack(b))==b through the real _pack_data for ALL int4 vectors of length 1..9 (odd tails padded with 0).",
+    "Assumes: shapes <= 6 elements; int4 integers lie in their range (C17 quantize.in_range) - used as a fact in the bit-vector step; the real-valued error bound (half/one step) follows from C17's round-trip lemma with C04 (parameters are those of the element's own channel) - composition on paper, checked concretely by C15's decoder oracle; FlatBuffers builder intercepted.",
+    "bit-precise symbolic execution (z3 QF_FP/QF_BV term equality + abstraction to a pure QF_BV lemma), independent decoder on byte terms, concrete replay through Quantizer.quantize()",
+    'DESIGN.md 3/C05')
+
 def write():
   m = {
    'version': 1,
